@@ -129,15 +129,15 @@ theorem abAfter_range (c : Comp σ π) (L : Limits) {Good : Board → Prop} {TTo
           (fun l' h => by rcases h with h | h <;> cases h)⟩
         cases hv'; exact hvr
       · have hinv : ABInv alpha0 { l with maxim := (if value > l.maxim then value else l.maxim), pick := c.setWeight l.pick value, failLow := false, alpha := value, bestMove := m } :=
-          ⟨by unfold InR at hvr; simp only; omega, hvr.2, fun _ => hmx, fun h => by rw [hleg] at h; cases h, qc,
-           by omega, fun _ => hvr.1, fun h => by cases h⟩
+          ⟨Int.le_trans (by decide) hvr.1, hvr.2, fun _ => hmx, (fun h => by rw [hleg] at h; cases h), qc,
+           Int.le_trans (by decide) mc, fun _ => hvr.1, (fun h => by cases h)⟩
         split
         · exact ⟨htt', (fun v h => by cases h), fun l' h => by rcases h with h | h <;> cases h; exact hinv⟩
         · exact ⟨htt', (fun v h => by cases h), fun l' h => by rcases h with h | h <;> cases h; exact hinv⟩
     · next hle =>
       have hle' : value ≤ (l.alpha : Int) := Int.not_lt.1 hle
       have hinv : ABInv alpha0 { l with maxim := (if value > l.maxim then value else l.maxim), pick := c.setWeight l.pick (-Inf) } :=
-        ⟨a1, a2, fun _ => hmx, fun h => by rw [hleg] at h; cases h, qc, by omega,
+        ⟨a1, a2, fun _ => hmx, (fun h => by rw [hleg] at h; cases h), qc, Int.le_trans (by decide) mc,
          fun _ => Int.le_trans hvr.1 hle', fun h => ⟨(fl h).1, fun _ => maxim_le hvr hle' (fl h).2⟩⟩
       split
       · exact ⟨htt', (fun v h => by cases h), fun l' h => by rcases h with h | h <;> cases h; exact hinv⟩
